@@ -8,4 +8,6 @@ Emit == PrintT("@@EMIT@@" \o ToJson([par |-> par, kind |-> kind, sflaw |-> sflaw
 KindsStruct == {"p1", "def", "on", "off", "dur", "del", "uq"}
 \* deep sampling: only clean and single-violation trees are of interest (what the statement fixes)
 EmitFew == (Cardinality(Viol) <= 1 /\ n >= 4) => Emit
+KindsDup == {"p1", "p2", "v", "def"}
+EmitDup == (n >= 6 /\ EmptyGroup = {} /\ \E x \in Repeated : IsGroup(x[2]) /\ Cardinality(Kids(x[2])) >= 2) => Emit
 ====
